@@ -1,6 +1,7 @@
 package props
 
 import (
+	crand "crypto/rand"
 	"bytes"
 	"crypto/sha256"
 	"fmt"
@@ -428,5 +429,74 @@ func runC09(r *mon.Run) {
 		if bytes.Equal(cand, c3) {
 			w.Fail("c09/nonce-reader:entropy", "the derived nonce stream ignores an entropy bit")
 		}
+	})
+
+	// --- nil rand: the system entropy source is not trusted either -----------------------
+	// With rand == nil the library reads crypto/rand.Reader.  The harness swaps that
+	// package variable for a scripted reader (single goroutine, restored afterwards):
+	// a constant or repeating system stream must still give distinct r for distinct
+	// (key, digest), a failing one must give an error and no signature.
+	r.Require("c09:sysrand:constant", "c09:sysrand:fail", "c09:sysrand:restored")
+	r.Seq("c09/system-entropy", r.N(60, 1500), func(w *mon.W, i int) {
+		rng := w.Rng
+		saved := crand.Reader
+		defer func() { crand.Reader = saved }()
+		d1, _ := keyValue(rng)
+		d2, _ := keyValue(rng)
+		if d1.Cmp(d2) == 0 {
+			d2 = oracle.AddM(d2, big.NewInt(1), bigN)
+			if d2.Sign() == 0 {
+				d2 = big.NewInt(2)
+			}
+		}
+		k1, k2 := mustPriv(d1), mustPriv(d2)
+		digA, digB := rng.Bytes(32), rng.Bytes(32)
+		pat := []byte{byte(rng.U64())}
+		if i%3 == 1 {
+			pat = rng.Bytes(32)
+		}
+		if i%3 == 2 {
+			pat = make([]byte, 1)
+		}
+		w.Case(true, []byte("sysrand"), b32(d1), b32(d2), digA, digB, pat)
+		type sg struct {
+			r, s *big.Int
+			err  error
+		}
+		sign := func(k *secec.PrivateKey, dig []byte) sg {
+			rd := &repeatReader{pat: pat}
+			crand.Reader = rd
+			lr, ls, _, err := k.SignRaw(nil, dig)
+			if err != nil {
+				return sg{err: err}
+			}
+			return sg{r: bigFromScalar(lr), s: bigFromScalar(ls)}
+		}
+		a, b, c := sign(k1, digA), sign(k1, digB), sign(k2, digA)
+		w.Class("c09:sysrand:constant")
+		if a.err != nil || b.err != nil || c.err != nil {
+			w.Fail("c09/sysrand:err", fmt.Sprintf("SignRaw(nil) failed with a working system entropy source: %v %v %v", a.err, b.err, c.err))
+			return
+		}
+		if a.r.Cmp(b.r) == 0 {
+			w.Fail("c09/sysrand:shared-r:digest", fmt.Sprintf("rand == nil and a repeating system entropy stream: two DIFFERENT digests under one key share r = %x (the nonce does not depend on the digest)", a.r), "d", hb(d1), "digestA", hx(digA), "digestB", hx(digB), "system_stream_pattern", hx(pat))
+		}
+		if a.r.Cmp(c.r) == 0 {
+			w.Fail("c09/sysrand:shared-r:key", fmt.Sprintf("rand == nil and a repeating system entropy stream: two DIFFERENT keys share r = %x on one digest (the nonce does not depend on the key)", a.r), "d1", hb(d1), "d2", hb(d2), "digest", hx(digA), "system_stream_pattern", hx(pat))
+		}
+		if !oracle.ECDSAVerify(oracle.MulG(d1), digA, a.r, a.s) {
+			w.Fail("c09/sysrand:verify", "SignRaw(nil) produced an invalid signature")
+		}
+		// a failing system source: error, no signature
+		for _, after := range []int{0, 1, 31} {
+			crand.Reader = &fixedReader{data: rng.Bytes(after), errAfter: errScripted}
+			lr, ls, _, err := k1.SignRaw(nil, digA)
+			w.Class("c09:sysrand:fail")
+			if err == nil || lr != nil || ls != nil {
+				w.Fail("c09/sysrand:fail", fmt.Sprintf("SignRaw(nil) returned a signature although the system entropy source failed after %d bytes", after))
+			}
+		}
+		crand.Reader = saved
+		w.Class("c09:sysrand:restored")
 	})
 }
